@@ -43,7 +43,7 @@ pub fn candidates(prop: &str) -> Vec<Value> {
             }}}}
         }
         "C02" => {
-            for g in ["G1", "G2"] { for s in schemes() { for kind in ["neg_sig", "sig_plus_g", "double_sig", "other_msg", "truncated_msg", "other_key", "pk_plus_g", "neg_pk", "relabel", "identity_both", "sum_valid"] {
+            for g in ["G1", "G2"] { for s in schemes() { for kind in ["honest_edge_msgs", "neg_sig", "sig_plus_g", "double_sig", "other_msg", "truncated_msg", "other_key", "pk_plus_g", "neg_pk", "relabel", "identity_both", "sum_valid"] {
                 v.push(json!({"call": "perturbed_verify", "group": g, "scheme": scheme_name(s), "kind": kind}));
             }}}
         }
@@ -134,6 +134,13 @@ fn perturbed_verify<C: BlsSignatureImpl + PartialEq>(c: &Value, keys: &[SecretKe
     let g_pk = <C as Pairing>::PublicKey::generator();
     let expect_err = |r: BlsResult<()>, what: &str| if r.is_ok() { Some(format!("{} was accepted", what)) } else { None };
     match c["kind"].as_str().unwrap() {
+        "honest_edge_msgs" => {
+            for mm in msgs() {
+                let sg = match sk.sign(s, &mm) { Ok(x) => x, Err(e) => return Some(format!("sign failed for a message of length {}: {}", mm.len(), e)) };
+                if let Err(e) = sg.verify(&pk, &mm) { return Some(format!("the one valid signature is rejected for a message of length {}: {}", mm.len(), e)); }
+            }
+            None
+        }
         "neg_sig" => expect_err(mk::<C>(s, -sig_pt(&sig)).verify(&pk, &m), "-sig"),
         "sig_plus_g" => expect_err(mk::<C>(s, sig_pt(&sig) + g_sig).verify(&pk, &m), "sig+G"),
         "double_sig" => expect_err(mk::<C>(s, sig_pt(&sig) + sig_pt(&sig)).verify(&pk, &m), "2*sig"),
